@@ -32,7 +32,7 @@ FLOATS = [0.5, -0.0, 1e15, 2.0 ** 53, -2.5, 3.0, 0.0]
 D0 = datetime.datetime(2024, 1, 2, 3, 4, 5, 123000)
 DTS = [D0, datetime.date(2024, 1, 2), datetime.datetime(2023, 12, 31, 23, 59, 59, 999000)] + \
     [D0 + datetime.timedelta(milliseconds=ms) for ms in (1001, 2030, -1003)]
-OTHERS = [[], [1, 'a'], {{}}, {{'a': 1}}, len, re.compile('a'), [None]]
+OTHERS = [[], [1, 'a'], {{}}, {{'a': 1}}, len, re.compile('a'), [None], ['id', 7], ['id', 'n/a'], {{'a': 'x'}}]
 
 
 def _pick(pool, i):
@@ -100,6 +100,7 @@ def _leafval(vals, k):
     v = vals[k]
     if MODE == 'int':
         return v
+    # 'pool' / 'poolarith': leaves of every type, so that operators see unsupported operand kinds with effectful siblings
     for j in range(len(POOL)):
         if v == j:
             return POOL[j]
@@ -185,7 +186,7 @@ def core_alias(i, i2, s, b):
 
 def _pre(kind, name):
     return {'str': [f'len({name}) <= 2'], 'null': [f'{name} == 0'], 'float': [f'0 <= {name} < 7'], 'dt': [f'0 <= {name} < 6'],
-            'other': [f'0 <= {name} < 7']}.get(kind, [])
+            'other': [f'0 <= {name} < 10']}.get(kind, [])
 
 
 def plan(tier, seed, workdir):
@@ -213,10 +214,13 @@ def plan(tier, seed, workdir):
     na, nl = (30, 40) if tier == 'quick' else (300, 400)
     arith = [t for t in arith if 2 <= t[1] <= 4][:na]
     logic = [t for t in logic if 2 <= t[1] <= (3 if tier == 'quick' else 4)][:nl]
-    for mode, trees in (('int', arith), ('pool', logic)):
+    mixed = c03spec.shapes(['*', '/', '%', '-', '+'], 2)
+    rng.shuffle(mixed)
+    mixed = [t for t in mixed if 2 <= t[1] <= 3][:(20 if tier == 'quick' else 200)]
+    for mode, trees in (('int', arith), ('pool', logic), ('poolarith', mixed)):
         for n, (tree, nleaf) in enumerate(trees):
             body = CORE_ORD.format(tree=tree, nleaf=nleaf, mode=mode)
-            pre = [f'len(vals) == {nleaf}'] + ([f'all(0 <= v < 12 for v in vals)'] if mode == 'pool' else [])
+            pre = [f'len(vals) == {nleaf}'] + ([f'all(0 <= v < 12 for v in vals)'] if mode != 'int' else [])
             body += hgen.harness('order', 'vals: List[int]', pre, core_call='core_order(vals)')
             path = hgen.write_module(workdir, f'c03_ord_{mode}_{n:03d}', body)
             hgen.ch_tasks(p, path, 'order', timeout, est=20, family='order / once / laziness', expr=c03spec.render(tree), leaves=mode)
